@@ -22,8 +22,8 @@ def cfg(L, R, steps, spaces, nxt, edge=True):
     return '\n'.join([
         'CONSTANTS L = %d' % L, 'R = %d' % R, 'MaxSteps = %d' % steps, 'Spaces <- %s' % spaces,
         'INIT MCInit', 'NEXT %s' % nxt, 'VIEW View', 'CHECK_DEADLOCK FALSE',
-        'INVARIANTS TypeOK Canonical InvertIsInverse',
-        'PROPERTIES NoAliasOutOfPlace InPlaceTouchesOnlyLhs RefusedLeavesEverything SpaceRule',
+        'INVARIANTS TypeOK Canonical InvertIsInverse IterVisitsEachPairOnce',
+        'PROPERTIES NoAliasOutOfPlace InPlaceTouchesOnlyLhs RefusedLeavesEverything SpaceRule AccessorsArePure SetMatrixLocal',
         'ACTION_CONSTRAINT %s' % ('Edge' if edge else 'NoEdge'), ''])
 
 
@@ -37,6 +37,10 @@ def type_names(rank):
 
 # ------------------------------------------------------------------------------------------
 # reference interpreter: the specification's action semantics, matrix by matrix, in numpy
+def set_mat(R):
+    return np.array([[5.0 if i == j else 1.5 for j in range(R)] for i in range(R)])
+
+
 # ------------------------------------------------------------------------------------------
 class Ref(object):
     def __init__(self, L, R, x, y, sx, sy):
@@ -132,6 +136,15 @@ class Ref(object):
             d[:, l['t2'] - 1, l['t1'] - 1] = v
             self.bufs[self.obj[n][0]] = d
             return ''
+        if act == 'GetIdx':
+            return 'AssertionError' if (l['i'] >= self.R or l['j'] >= self.R) else ''
+        if act in ('GetMatrix', 'IterPairs'):
+            return ''
+        if act == 'SetMatrix':
+            d = self.data(n).copy()
+            d[l['l']] = set_mat(self.R)
+            self.bufs[self.obj[n][0]] = d
+            return ''
         raise MachineryError('unknown action ' + act)
 
     def partition(self):
@@ -205,6 +218,11 @@ class MAAdapter(Adapter):
             for t in ('t1', 't2'):
                 if t in l:
                     l[t] = min(l[t], w['R'])
+            for t in ('i', 'j'):              # index R of the skeleton = "out of range"
+                if t in l:
+                    l[t] = w['R'] if l[t] >= self.R else min(l[t], w['R'] - 1)
+            if act in ('GetMatrix', 'SetMatrix'):
+                l['l'] = (w['L'] - 1) if l['l'] == self.L - 1 else min(l['l'], w['L'] - 1)     # the last matrix stays the last
             if act == 'Invert' and max(np.linalg.cond(m) for m in w['ref'].data(n)) > 1e6:
                 return {'_skip': True}
             if act == 'Bin' and l['op'] == 'div':
@@ -272,6 +290,23 @@ class MAAdapter(Adapter):
                 k1 = T[l['t1'] - 1] if l['t1'] else 'nosuch'
                 k2 = T[l['t2'] - 1] if l['t2'] else 'nosuch'
                 obs['out'] = np.array(a[k1, k2])
+            elif act == 'GetIdx':
+                obs['out'] = np.array(a.get(l['i'], l['j']))
+                obs['exp'] = w['ref'].data(n)[:, l['i'], l['j']].copy()
+            elif act == 'GetMatrix':
+                obs['out'] = np.array(a.getMatrix(l['l']))
+                obs['exp'] = w['ref'].data(n)[l['l']].copy()
+            elif act == 'SetMatrix':
+                a.setMatrix(l['l'], set_mat(w['R']))
+            elif act == 'IterPairs':
+                import warnings
+                with warnings.catch_warnings(record=True) as caught:
+                    warnings.simplefilter('always')
+                    it = a.itercurve() if l['deprecated'] else a.iterpairs()
+                    obs['visited'] = [(tuple(ij), tuple(tt), np.array(f)) for ij, tt, f in it]
+                obs['warned'] = any(issubclass(c.category, DeprecationWarning) for c in caught)
+                obs['types'] = list(a.types)
+                obs['exp_data'] = w['ref'].data(n).copy()
             else:
                 raise MachineryError('unknown action ' + act)
         except AssertionError:
@@ -305,6 +340,35 @@ class MAAdapter(Adapter):
             I = np.array([np.eye(obs['product'].shape[1])] * obs['product'].shape[0])
             if np.max(np.abs(obs['product'] - I)) > 1e-9:
                 out.append(('InvertIsInverse', {'err': float(np.max(np.abs(obs['product'] - I)))}))
+        if label['act'] in ('GetIdx', 'GetMatrix') and label['raises'] == '' and obs['raises'] == '':
+            exp = obs['exp']
+            if not self.par:          # TLC's exact value is the oracle
+                exp = np.array([c[0] / c[1] for c in label['out']]) if label['act'] == 'GetIdx' else \
+                    np.array([[c[0] / c[1] for c in row] for row in label['out']])
+            if obs['out'].shape != exp.shape or np.max(np.abs(exp - obs['out'])) > 1e-12 * max(1.0, np.max(np.abs(exp))):
+                out.append((label['act'] + 'Value', {'expected': exp.tolist(), 'observed': obs['out'].tolist()}))
+        if label['act'] == 'IterPairs' and obs['raises'] == '':
+            R = obs['exp_data'].shape[1]
+            want = [(i, j) for i in range(R) for j in range(R) if i <= j]
+            got = [v[0] for v in obs['visited']]
+            if got != want:
+                out.append(('IterVisitsEachPairOnce', {'expected': want, 'observed': got}))
+            else:
+                for (i, j), tt, f in obs['visited']:
+                    if tt != (obs['types'][i], obs['types'][j]):
+                        out.append(('IterTypeNames', {'pair': [i, j], 'observed': list(tt)}))
+                        break
+                    if f.shape != obs['exp_data'][:, i, j].shape or np.max(np.abs(f - obs['exp_data'][:, i, j])) > 1e-12 * max(1.0, np.max(np.abs(f))):
+                        out.append(('IterPairFunction', {'pair': [i, j]}))
+                        break
+                if not self.par:
+                    for q, rec in enumerate(label['out']):
+                        exp = np.array([c[0] / c[1] for c in rec['f']])
+                        if (rec['i'], rec['j']) != obs['visited'][q][0] or np.max(np.abs(exp - obs['visited'][q][2])) > 1e-12 * max(1.0, np.max(np.abs(exp))):
+                            out.append(('IterPairFunction', {'pair': [rec['i'], rec['j']], 'what': 'differs from the specification'}))
+                            break
+            if bool(label['deprecated']) != obs['warned']:
+                out.append(('ItercurveDeprecation', {'deprecated_alias': label['deprecated'], 'warned': obs['warned']}))
         if label['act'] == 'GetItem' and label['raises'] == '' and obs['raises'] == '':
             if not self.par:
                 exp = np.array([c[0] / c[1] for c in label['out']])
@@ -399,6 +463,11 @@ def run(ctx):
     require_clean(res, 'MatrixArray operand kinds')
     ctx.add_tlc('operand kinds row/mat L=1 R=2 depth 1', res, exhaustive=True)
     replay_graph(ctx, res, 1, 2, 'replay.kinds', 1, parametric=[(2, 2), (3, 3), (4, 4), (2, 5), (5, 2)])
+    # accessors by index and iteration, interleaved with the writes they must reflect (also through a shared buffer)
+    res = run_tlc('MC_MatrixArray', cfg(2, 2, 2, 'RealOnly', 'AccessNext'), ctx.tmp, seed=ctx.seed)
+    require_clean(res, 'MatrixArray accessors')
+    ctx.add_tlc('accessors L=2 R=2 depth 2', res, exhaustive=True)
+    replay_graph(ctx, res, 2, 2, 'replay.accessors', 2, parametric=[(1, 3), (3, 4)] if not thorough else [(1, 1), (1, 3), (3, 4), (4, 2), (5, 16)])
     # space machine: all 3x3 flag pairs x operators
     res = run_tlc('MC_MatrixArray', cfg(1, 2, 1, 'AllSpaces', 'SpaceNext'), ctx.tmp, seed=ctx.seed)
     require_clean(res, 'MatrixArray spaces')
